@@ -79,7 +79,8 @@ def h_alias_ref(vf, node, fn, args):
      'ndarray::ArrayBase::view', 'ndarray::ArrayBase::into_owned', 'ndarray::ArrayBase::to_vec',
      'burn::tensor::Tensor::detach', 'burn::tensor::Tensor::require_grad', 'burn::tensor::Tensor::from_inner',
      'burn::tensor::Tensor::inner', 'burn::tensor::Tensor::into_scalar', 'burn::tensor::Tensor::to_data',
-     'burn::tensor::Tensor::into_data', 'core::slice::to_vec', 'std::iter::Iterator::cloned', 'std::iter::Iterator::copied',
+     'burn::tensor::Tensor::into_data', 'burn::tensor::TensorData::convert', 'burn::tensor::TensorData::as_slice', 'burn::tensor::TensorData::to_vec',
+     'burn::tensor::TensorData::into_vec', 'burn::tensor::TensorData::as_mut_slice', 'core::slice::to_vec', 'std::iter::Iterator::cloned', 'std::iter::Iterator::copied',
      'ndarray::ArrayBase::into_dimensionality', 'std::hint::must_use', 'std::sync::Arc::new', 'std::boxed::Box::new',
      'ndarray::ArrayBase::into_shape_with_order', 'ndarray::ArrayBase::into_dyn',
      'num_traits::NumCast::from', 'num_traits::FromPrimitive::from_f64', 'num_traits::FromPrimitive::from_f32',
@@ -789,6 +790,15 @@ def h_backend_seed(vf, node, fn, args):
 reg('DRAW', 'rand_distr::Normal::new')(_func('Normal'))
 
 # ------------------------------------------------------------------ threads / closures run in place
+
+@reg('CONC', 'std::sync::mpsc::channel', 'std::sync::mpsc::sync_channel')
+def h_channel(vf, node, fn, args):
+    # every call creates a fresh channel: (sender, receiver) of the same resource
+    vf.uid += 1
+    res = T.app('channel#%d' % vf.uid)
+    vf.log('channel', [], node, res=res)
+    return T.tup(T.app('tx', res), T.app('rx', res))
+
 
 @reg('CONC', 'std::thread::scope')
 def h_scope(vf, node, fn, args):
